@@ -84,6 +84,7 @@ pub fn make_case(seed: u64, _tier: Tier, idx: u64) -> Case {
                     }
                     _ => gen::grammar_for_case(&mut rng, u64::MAX),
                 };
+                let (cfg, force) = if source != Source::Big && rng.chance(0.15) { gen::add_dead_nonterminal(&cfg, &force, &mut rng) } else { (cfg, force) };
                 let score = match lr::build_reference(&cfg, 3000) {
                     None => -100,
                     Some(r) if r.lalr_conflict => -50,
@@ -102,6 +103,9 @@ pub fn make_case(seed: u64, _tier: Tier, idx: u64) -> Case {
                         }
                         if source == Source::Big {
                             sc += 6;
+                        }
+                        if an.productive.iter().any(|p| !*p) {
+                            sc += 5;
                         }
                         sc + rng.below(9) as i64
                     }
@@ -254,7 +258,7 @@ fn used_leaves(t: &Tree, c: &Case, owners: &[(usize, usize)]) -> usize {
 
 /// Inputs for one grammar: W1 exhaustive short strings, W2 random sentences,
 /// W3 prefix-extension sweep, W4 edits, W5 long sentences (thorough).
-pub fn make_inputs(cfg: &Cfg, rng: &mut Rng, tier: Tier, budget: usize, sentence_bias: bool) -> Vec<(Vec<usize>, &'static str)> {
+pub fn make_inputs(cfg: &Cfg, rng: &mut Rng, tier: Tier, budget: usize, sentence_bias: bool, force_long: bool) -> Vec<(Vec<usize>, &'static str)> {
     let an = lr::analyse(cfg);
     let nt = cfg.nt;
     let mut seen: HashSet<Vec<usize>> = HashSet::new();
@@ -295,7 +299,7 @@ pub fn make_inputs(cfg: &Cfg, rng: &mut Rng, tier: Tier, budget: usize, sentence
         let targets: &[usize] = tier.pick(&[1, 2, 3, 4, 6, 8, 12, 16, 24, 40], &[1, 2, 3, 4, 5, 6, 8, 10, 12, 16, 20, 24, 32, 40, 60, 100]);
         for round in 0..tier.pick(3, 5) * if sentence_bias { 4 } else { 1 } {
             for t in targets {
-                if let Some(s) = gen::random_sentence(cfg, &an, rng, *t + round) {
+                if let Some(s) = gen::random_sentence_mode(cfg, &an, rng, *t + round, round % 3 == 2) {
                     if s.len() <= 400 {
                         sentences.push(s);
                     }
@@ -370,10 +374,11 @@ pub fn make_inputs(cfg: &Cfg, rng: &mut Rng, tier: Tier, budget: usize, sentence
     }
     // W5: long sentences
     if an.productive[cfg.start] {
-        let lens: &[usize] = tier.pick(&[300usize, 900], &[300usize, 1000, 3000, 5000]);
+        let lens: &[usize] = tier.pick(&[500usize, 2500], &[300usize, 1000, 3000, 5000]);
         for t in lens.iter().copied() {
-            if rng.chance(tier.pick(0.2, 0.5)) {
-                if let Some(s) = gen::random_sentence(cfg, &an, rng, t) {
+            if force_long || rng.chance(tier.pick(0.3, 0.5)) {
+                let monotone = force_long || rng.chance(0.6);
+                if let Some(s) = gen::random_sentence_mode(cfg, &an, rng, t, monotone) {
                     if s.len() <= 6000 && !s.is_empty() {
                         let mut broken = s.clone();
                         out.push((s, "W5"));
@@ -440,7 +445,9 @@ impl EmitRun {
         let owners = c.model.rule_owners();
         let an = lr::analyse(&c.cfg);
         let all_productive = an.productive.iter().all(|p| *p);
-        let inputs = make_inputs(&c.cfg, &mut rng, w.tier, w.tier.pick(350, 900), prop == "C02");
+        // the corpus and repository-example grammars always get long pure chains (lists of hundreds of elements)
+        let force_long = c.source == Source::Corpus;
+        let inputs = make_inputs(&c.cfg, &mut rng, w.tier, w.tier.pick(350, 900), prop == "C02", force_long);
         // grammar classes for the evidence
         let mut classes: Vec<&str> = vec![];
         if !all_productive {
